@@ -17,6 +17,16 @@ PROPS = {
                                      'lossless predicate taken from the property text (vh.h), not from the library'],
         floor={'quick': 1000, 'thorough': 10000},
     ),
+    'C04': dict(
+        runs=[dict(src='c04_closed_file.c')],
+        level='exploration',
+        rule=('case = (container, encoding, endian, channels, sample rate, N, write partition, garbage in SF_INFO.frames at open); write, close, '
+              're-open: compare channels/format/byte order/rate (quantised by the container\'s documented unit), N <= F < N+B, read-to-EOF == F, '
+              'RIFF/FORM size fields == file size. distinct = hash of the parameters'),
+        assumptions=COMMON_ASSUME + ['block lengths B and rate-field units are harness tables written from the format documents (vh.h, c04)',
+                                     'SD2 covered by C14 (path route) only'],
+        floor={'quick': 1000, 'thorough': 10000},
+    ),
 }
 
 NOT_APPLICABLE = {}
